@@ -177,6 +177,10 @@ class Ctx:
     self._add(z3.And(c >= lo, c <= hi))
     return SymInt(c)
 
+  def split(self, name, lo, hi):
+    """Integer in [lo, hi] split by the solver into a concrete ExactInt on each path."""
+    return ExactInt(self.int(name, lo, hi).__index__())
+
   def elem(self, name):
     c = z3.Const(name, SymElem.SORT)
     self.vars[name] = ("elem", c)
@@ -250,9 +254,9 @@ class Ctx:
     if "int" in c: return "int"
     return "real"
 
-  def check(self, extra=(), want_model=True, timeout_ms=None):
+  def check(self, extra=(), want_model=True, timeout_ms=None, cls=None):
     extra = [e for e in extra]
-    qc = self._qclass(extra)
+    qc = cls or self._qclass(extra)
     if qc == "all":
       cons = [e for e, _ in self.pc]
       sol = z3.Solver()
@@ -339,9 +343,10 @@ class Ctx:
         v = self.prefix[self.pos]["v"]
         if v is None: raise EngineError("prefix desynchronised (expected value split)")
       else:
-        m = self.models.get(self._qclass([iterm == 0]))
+        qc = self._qclass([iterm == 0])
+        m = self.models.get(qc)
         if m is None:
-          r, m = self.check([])
+          r, m = self.check([], cls=qc)
           if r != "sat":
             raise Unsupported("no model for the path condition while splitting an integer (%s)" % r)
         v = m.eval(iterm, model_completion=True).as_long()
@@ -544,6 +549,8 @@ class ConcreteCtx:
   def int(self, name, lo, hi):
     v = int(self._get(name, lo))
     return v
+
+  split = int
 
   def elem(self, name):
     v = self._get(name, None)
